@@ -18,9 +18,7 @@ import (
 	"errors"
 	"fmt"
 	"io"
-	"math/rand/v2"
 	"net/url"
-	"regexp"
 	"sort"
 	"strconv"
 	"strings"
@@ -35,650 +33,25 @@ import (
 	"github.com/sirupsen/logrus"
 )
 
-// ---- case model ------------------------------------------------------------
+// ---- case model, reference semantics, generator: shared with the `groups` part (package
+// control) and therefore kept in /verif/kit/c14_ref.go (package verifkit, standard library only)
 
-type c14Node struct {
-	Name string `json:"name"`
-	Tag  string `json:"subtag"`
-}
+type (
+	c14Node   = vk.C14Node
+	c14Val    = vk.C14Val
+	c14Term   = vk.C14Term
+	c14Anno   = vk.C14Anno
+	c14Line   = vk.C14Line
+	c14Case   = vk.C14Case
+	c14Expect = vk.C14Expect
+)
 
-type c14Val struct {
-	Key  string `json:"key"` // "" exact, keyword, regex, or an invalid key
-	Val  string `json:"val"`
-	Sem  string `json:"sem,omitempty"` // regex only: re2 | notcontains | containsboth | dupadj | bad
-	A    string `json:"a,omitempty"`   // operands of the hand-written regex templates
-	B    string `json:"b,omitempty"`
-	Bare bool   `json:"bare,omitempty"`
-}
-
-type c14Term struct {
-	Input string   `json:"input"`
-	Not   bool     `json:"not,omitempty"`
-	Vals  []c14Val `json:"vals"`
-}
-
-type c14Anno struct {
-	Key  string `json:"key"` // "" = bare value without key
-	Val  string `json:"val"`
-	Bare bool   `json:"bare,omitempty"`
-}
-
-type c14Line struct {
-	Terms []c14Term `json:"terms"`
-	Anno  []c14Anno `json:"anno,omitempty"` // nil = no [..] at all
-}
-
-type c14Case struct {
-	Pool   []c14Node `json:"pool"`
-	Lines  []c14Line `json:"lines"`
-	Policy string    `json:"policy"` // verbatim text after "policy: "
-}
-
-func (c *c14Case) clone() *c14Case {
-	q := &c14Case{Policy: c.Policy, Pool: append([]c14Node(nil), c.Pool...)}
-	for _, l := range c.Lines {
-		nl := c14Line{}
-		if l.Anno != nil {
-			nl.Anno = append([]c14Anno{}, l.Anno...)
-		}
-		for _, t := range l.Terms {
-			nl.Terms = append(nl.Terms, c14Term{Input: t.Input, Not: t.Not, Vals: append([]c14Val(nil), t.Vals...)})
-		}
-		q.Lines = append(q.Lines, nl)
-	}
-	return q
-}
-
-var c14BareRe = regexp.MustCompile(`^[-+]?[A-Za-z0-9_][A-Za-z0-9_.]*$`)
-
-// c14QuoteWith renders s inside quote character q the way the lexer reads it:
-// a quote character directly after a backslash never terminates the literal
-// (and nothing is unescaped: both characters stay in the value), so s is
-// representable with q iff every q in s follows a backslash and s does not
-// end with a backslash.
-func c14QuoteWith(s string, q byte) (string, bool) {
-	if strings.HasSuffix(s, "\\") {
-		return "", false
-	}
-	for i := 0; i < len(s); i++ {
-		if s[i] == q && (i == 0 || s[i-1] != '\\') {
-			return "", false
-		}
-	}
-	return string(q) + s + string(q), true
-}
-
-func c14Quote(s string, bare bool) string {
-	if bare && c14BareRe.MatchString(s) {
-		return s
-	}
-	if t, ok := c14QuoteWith(s, '\''); ok {
-		return t
-	}
-	t, _ := c14QuoteWith(s, '"')
-	return t
-}
-
-// representable: some quoting of s is read back as exactly s.
-func c14Representable(s string) bool {
-	if strings.ContainsAny(s, "\n\r") {
-		return false
-	}
-	_, ok1 := c14QuoteWith(s, '\'')
-	_, ok2 := c14QuoteWith(s, '"')
-	return ok1 || ok2
-}
-
-func (l *c14Line) text() string {
-	var ts []string
-	for _, t := range l.Terms {
-		var vs []string
-		for _, v := range t.Vals {
-			s := c14Quote(v.Val, v.Bare)
-			if v.Key != "" {
-				s = v.Key + ": " + s
-			}
-			vs = append(vs, s)
-		}
-		n := ""
-		if t.Not {
-			n = "!"
-		}
-		ts = append(ts, n+t.Input+"("+strings.Join(vs, ", ")+")")
-	}
-	s := "filter: " + strings.Join(ts, " && ")
-	if l.Anno != nil {
-		var as []string
-		for _, a := range l.Anno {
-			v := c14Quote(a.Val, a.Bare)
-			if a.Key != "" {
-				v = a.Key + ": " + v
-			}
-			as = append(as, v)
-		}
-		s += " [" + strings.Join(as, ", ") + "]"
-	}
-	return s
-}
-
-func (c *c14Case) groupText() string {
-	var b strings.Builder
-	b.WriteString("global {}\nrouting {\n    fallback: direct\n}\ngroup {\n    g {\n")
-	for i := range c.Lines {
-		b.WriteString("        " + c.Lines[i].text() + "\n")
-	}
-	b.WriteString("        policy: " + c.Policy + "\n    }\n}\n")
-	return b.String()
-}
-
-// ---- reference semantics (from the statement and config/desc.go) ------------
-
-func c14ValInvalid(input string, v *c14Val) string {
-	switch input {
-	case "name":
-		if v.Key != "" && v.Key != "keyword" && v.Key != "regex" {
-			return "unknown_key"
-		}
-	case "subtag":
-		if v.Key != "" && v.Key != "regex" {
-			return "unknown_key"
-		}
-	}
-	if v.Key == "regex" && v.Sem == "bad" {
-		return "bad_regex"
-	}
-	return ""
-}
-
-func c14AnnoInvalid(a []c14Anno) string {
-	for _, p := range a {
-		if p.Key != "add_latency" {
-			return "anno_unknown_key"
-		}
-		if _, err := time.ParseDuration(p.Val); err != nil {
-			return "anno_malformed"
-		}
-	}
-	return ""
-}
-
-var c14ReCache = map[string]*regexp.Regexp{}
-
-func c14Match(field string, v *c14Val) bool {
-	switch v.Key {
-	case "":
-		return field == v.Val
-	case "keyword":
-		return strings.Contains(field, v.Val)
-	case "regex":
-		switch v.Sem {
-		case "re2":
-			re := c14ReCache[v.Val]
-			if re == nil {
-				re = regexp.MustCompile(v.Val)
-				c14ReCache[v.Val] = re
-			}
-			return re.MatchString(field)
-		case "notcontains":
-			return !strings.Contains(field, v.A)
-		case "containsboth":
-			return strings.Contains(field, v.A) && strings.Contains(field, v.B)
-		case "dupadj":
-			rs := []rune(field)
-			for i := 1; i < len(rs); i++ {
-				if rs[i] == rs[i-1] {
-					return true
-				}
-			}
-			return false
-		}
-	}
-	panic("c14Match on invalid value")
-}
-
-func c14Field(n c14Node, input string) string {
-	if input == "subtag" {
-		return n.Tag
-	}
-	return n.Name
-}
-
-type c14Expect struct {
-	Invalid      string // first invalidity class in text order ("" = valid definition)
-	InvalidAll   []string
-	Members      []int           // pool indices, valid definitions only
-	Offsets      []time.Duration // per member
-	OffsetJudged []bool          // false: duplicated add_latency whose first value is zero (statement silent)
-	WinLine      []int           // per member
-	// classification help for accepted-invalid definitions: would a strict
-	// left-to-right short-circuit evaluation touch an invalid element?
-	Reached bool
-	Causes  map[string]int
-}
-
-// c14PolicyExpect: ok=false -> must be rejected; judged=false -> statement silent.
-func c14PolicyExpect(p string) (name string, idx int, ok bool) {
-	s := strings.TrimSpace(p)
-	if len(s) >= 2 && (s[0] == '\'' || s[0] == '"') && s[len(s)-1] == s[0] {
-		// a quoted value is a plain string: only the parameterless names fit
-		switch s[1 : len(s)-1] {
-		case "random", "min", "min_avg10", "min_moving_avg":
-			return s[1 : len(s)-1], 0, true
-		}
-		return "", 0, false
-	}
-	switch s {
-	case "random", "min", "min_avg10", "min_moving_avg":
-		return s, 0, true
-	}
-	if strings.HasPrefix(s, "fixed(") && strings.HasSuffix(s, ")") {
-		arg := strings.TrimSpace(s[len("fixed(") : len(s)-1])
-		if len(arg) >= 2 && (arg[0] == '\'' || arg[0] == '"') && arg[len(arg)-1] == arg[0] {
-			arg = arg[1 : len(arg)-1]
-		}
-		if n, err := strconv.Atoi(arg); err == nil {
-			return "fixed", n, true
-		}
-	}
-	return "", 0, false
-}
-
-func c14Reference(c *c14Case) *c14Expect {
-	e := &c14Expect{Causes: map[string]int{}}
-	add := func(cl string) {
-		if cl != "" {
-			if e.Invalid == "" {
-				e.Invalid = cl
-			}
-			e.InvalidAll = append(e.InvalidAll, cl)
-		}
-	}
-	for li := range c.Lines {
-		l := &c.Lines[li]
-		for ti := range l.Terms {
-			t := &l.Terms[ti]
-			if t.Input != "name" && t.Input != "subtag" {
-				add("unknown_input")
-				continue
-			}
-			for vi := range t.Vals {
-				add(c14ValInvalid(t.Input, &t.Vals[vi]))
-			}
-		}
-		add(c14AnnoInvalid(l.Anno))
-	}
-	if _, _, ok := c14PolicyExpect(c.Policy); !ok {
-		add("bad_policy")
-		e.Reached = true // the policy is looked at unconditionally
-		return e
-	}
-	if e.Invalid != "" {
-		// classification only (never a verdict): which invalid elements would a
-		// short-circuit evaluation in text order touch?
-		if len(c.Pool) == 0 {
-			e.Causes["empty_pool"]++
-		}
-		for _, n := range c.Pool {
-		nextLine:
-			for li := range c.Lines {
-				l := &c.Lines[li]
-				for ti := range l.Terms {
-					t := &l.Terms[ti]
-					if t.Input != "name" && t.Input != "subtag" {
-						e.Reached = true
-						return e
-					}
-					hit := false
-					for vi := range t.Vals {
-						if c14ValInvalid(t.Input, &t.Vals[vi]) != "" {
-							e.Reached = true
-							return e
-						}
-						if c14Match(c14Field(n, t.Input), &t.Vals[vi]) {
-							hit = true
-							if vi < len(t.Vals)-1 {
-								e.Causes["after_hitting_alternative"]++
-							}
-							break
-						}
-					}
-					if hit == t.Not {
-						if ti < len(l.Terms)-1 {
-							e.Causes["after_failing_term"]++
-						}
-						continue nextLine
-					}
-				}
-				if c14AnnoInvalid(l.Anno) != "" {
-					e.Reached = true
-					return e
-				}
-				if li < len(c.Lines)-1 {
-					e.Causes["after_hitting_line"]++
-				}
-				break
-			}
-		}
-		for li := range c.Lines {
-			if c14AnnoInvalid(c.Lines[li].Anno) != "" {
-				e.Causes["annotation_on_line_no_node_hits_first"]++
-			}
-		}
-		return e
-	}
-	// valid definition: the set comprehension.
-	for i, n := range c.Pool {
-		if len(c.Lines) == 0 {
-			e.Members = append(e.Members, i)
-			e.Offsets = append(e.Offsets, 0)
-			e.OffsetJudged = append(e.OffsetJudged, true)
-			e.WinLine = append(e.WinLine, -1)
-			continue
-		}
-		for li := range c.Lines {
-			l := &c.Lines[li]
-			all := true
-			for ti := range l.Terms {
-				t := &l.Terms[ti]
-				any := false
-				for vi := range t.Vals {
-					if c14Match(c14Field(n, t.Input), &t.Vals[vi]) {
-						any = true
-					}
-				}
-				if any == t.Not {
-					all = false
-				}
-			}
-			if !all {
-				continue
-			}
-			var off time.Duration
-			judged := true
-			if len(l.Anno) > 0 {
-				off, _ = time.ParseDuration(l.Anno[0].Val)
-				if off == 0 {
-					for _, a := range l.Anno[1:] {
-						if d, _ := time.ParseDuration(a.Val); d != 0 {
-							judged = false // "[add_latency: 0s, add_latency: 5ms]": statement silent
-						}
-					}
-				}
-			}
-			e.Members = append(e.Members, i)
-			e.Offsets = append(e.Offsets, off)
-			e.OffsetJudged = append(e.OffsetJudged, judged)
-			e.WinLine = append(e.WinLine, li)
-			break
-		}
-	}
-	return e
-}
-
-// ---- generator -------------------------------------------------------------
-
-var c14Names = []string{
-	"", "a", "A", "ab", "a.b", "a+b", "a|b", "(x)", "[hk]", "HK 01", "hk", "HK", "HK-02", "香港-1", "香港", "🇭🇰 HK",
-	"x*", "^a$", `a\b`, "sg", "SG|HK", "Disney HK", "ExpireAt: 2030", "a'b", `a"b`, `'"`, "  ", "\t", "aa", "日本 JP", "JP", "$", ".", "a:b", "a#b", "a,b", "name", "(", "!a",
-}
-var c14Tags = []string{"", "", "my_sub", "my_sub2", "sub.1", "Sub", "订阅", "a", "HK", "my sub", "^my_"}
-
-var c14BadRegex = []string{"(", "[a", "*a", "a{2,1}", "a)", "(?P<n", "[z-a]", "a**", "+", `\p{Foo}`, `\k<n>`, `\1`}
-var c14BadInputs = []string{"foo", "link", "Name", "tag", "subtag2", "names", "SUBTAG"}
-var c14BadNameKeys = []string{"regexp", "Keyword", "contains", "prefix", "kyword", "REGEX"}
-var c14BadTagKeys = []string{"keyword", "Regex", "prefix", "contains"}
-var c14BadAnnoKeys = []string{"latency", "add_latency_ms", "Add_Latency", "", "addlatency", "weight"}
-var c14BadDur = []string{"500", "abc", "5 ms", "ms", "1.5.5s", "", "--5ms", "5msec", "1,5s"}
-var c14GoodDur = []string{"-500ms", "1s", "0", "0s", "100us", "1.5s", "+3ms", "1h2m", "-1ns", "50ms", "1µs", "999h"}
-var c14BadPolicy = []string{"min_avg", "Random", "fixed", "fixed(a)", "fixed(1,2)", "fixed(idx: 1)", "fixed(1.0)", "fixed(0x1)", "least",
-	"min_moving_average", "fixed('')", "MIN", "min10", "fixed(1e0)", "fixed(１)", "'fixed(0)'", "fixed(0, 0)", "fixed(min)"}
-
-type c14Gen struct {
-	r *rand.Rand
-}
-
-func (g *c14Gen) pick(l []string) string { return l[g.r.IntN(len(l))] }
-
-func (g *c14Gen) pool() []c14Node {
-	n := g.r.IntN(13)
-	// a small sub-alphabet per case makes duplicates and near-misses frequent
-	sub := make([]string, 1+g.r.IntN(6))
-	for i := range sub {
-		sub[i] = g.pick(c14Names)
-	}
-	tags := make([]string, 1+g.r.IntN(3))
-	for i := range tags {
-		tags[i] = g.pick(c14Tags)
-	}
-	p := make([]c14Node, n)
-	for i := range p {
-		p[i] = c14Node{Name: g.pick(sub), Tag: g.pick(tags)}
-		if g.r.IntN(5) == 0 {
-			p[i].Name = g.pick(c14Names)
-		}
-	}
-	return p
-}
-
-func (g *c14Gen) fieldSample(pool []c14Node, input string) string {
-	if len(pool) > 0 && g.r.IntN(4) != 0 {
-		n := pool[g.r.IntN(len(pool))]
-		return c14Field(n, input)
-	}
-	if input == "subtag" {
-		return g.pick(c14Tags)
-	}
-	return g.pick(c14Names)
-}
-
-func (g *c14Gen) substr(s string) string {
-	rs := []rune(s)
-	if len(rs) == 0 {
-		return ""
-	}
-	i := g.r.IntN(len(rs))
-	j := i + 1 + g.r.IntN(len(rs)-i)
-	return string(rs[i:j])
-}
-
-func (g *c14Gen) regex(pool []c14Node, input string) c14Val {
-	v := c14Val{Key: "regex", Sem: "re2"}
-	lit := func() string { return regexp.QuoteMeta(g.substr(g.fieldSample(pool, input))) }
-	switch g.r.IntN(12) {
-	case 0:
-		v.Val = "^" + regexp.QuoteMeta(g.fieldSample(pool, input)) + "$"
-	case 1:
-		v.Val = lit()
-	case 2:
-		v.Val = "^" + lit()
-	case 3:
-		v.Val = lit() + "$"
-	case 4:
-		v.Val = lit() + "|" + lit()
-	case 5:
-		v.Val = "^(" + lit() + "|" + lit() + ").*$"
-	case 6:
-		v.Val = "^.*" + lit() + ".+$"
-	case 7:
-		v.Val = "[" + g.pick([]string{"a-c", "A-Z", "0-9", "hkHK", "^a", "^ -~"}) + "]" + g.pick([]string{"", "+", "*", "?", "{2}"})
-	case 8:
-		v.Val = "(?i)" + g.pick([]string{"hk", "A", "sg|jp", "^a", "disney", "b$"})
-	case 9:
-		a := g.substr(g.fieldSample(pool, input))
-		v.Sem, v.A, v.Val = "notcontains", a, "^(?!.*"+regexp.QuoteMeta(a)+")"
-	case 10:
-		a, b := g.substr(g.fieldSample(pool, input)), g.substr(g.fieldSample(pool, input))
-		v.Sem, v.A, v.B, v.Val = "containsboth", a, b, "^(?=.*"+regexp.QuoteMeta(a)+")(?=.*"+regexp.QuoteMeta(b)+")"
-	case 11:
-		v.Sem, v.Val = "dupadj", `(.)\1`
-	}
-	if v.Sem == "re2" {
-		if _, err := regexp.Compile(v.Val); err != nil {
-			v.Val = "^$"
-		}
-	}
-	return v
-}
-
-func (g *c14Gen) val(pool []c14Node, input string) c14Val {
-	var v c14Val
-	k := g.r.IntN(10)
-	switch {
-	case k < 4:
-		v = c14Val{Key: "", Val: g.fieldSample(pool, input)}
-	case k < 7 && input == "name":
-		v = c14Val{Key: "keyword", Val: g.substr(g.fieldSample(pool, input))}
-		if g.r.IntN(12) == 0 {
-			v.Val = ""
-		}
-	default:
-		v = g.regex(pool, input)
-	}
-	if !c14Representable(v.Val) {
-		v = c14Val{Key: "", Val: "a"}
-	}
-	v.Bare = g.r.IntN(2) == 0
-	return v
-}
-
-func (g *c14Gen) gen() *c14Case {
-	c := &c14Case{Pool: g.pool()}
-	nl := 0
-	if g.r.IntN(10) != 0 {
-		nl = 1 + g.r.IntN(4)
-	}
-	for i := 0; i < nl; i++ {
-		var l c14Line
-		if i > 0 && g.r.IntN(6) == 0 {
-			// a near-copy of the previous line: same functions, one value (preferably a late one of
-			// a long list) exchanged; whatever is remembered about the earlier line must not be
-			// taken for this one
-			prev := c.Lines[i-1]
-			for _, t := range prev.Terms {
-				nt := c14Term{Input: t.Input, Not: t.Not, Vals: append([]c14Val(nil), t.Vals...)}
-				l.Terms = append(l.Terms, nt)
-			}
-			t := &l.Terms[g.r.IntN(len(l.Terms))]
-			k := len(t.Vals) - 1
-			if g.r.IntN(4) == 0 {
-				k = g.r.IntN(len(t.Vals))
-			}
-			t.Vals[k] = g.val(c.Pool, t.Input)
-			l.Anno = []c14Anno{{Key: "add_latency", Val: g.pick(c14GoodDur), Bare: g.r.IntN(2) == 0}}
-			c.Lines = append(c.Lines, l)
-			continue
-		}
-		nt := 1 + g.r.IntN(3)
-		for j := 0; j < nt; j++ {
-			t := c14Term{Input: "name", Not: g.r.IntN(10) < 3}
-			if g.r.IntN(10) < 3 {
-				t.Input = "subtag"
-			}
-			nv := 1 + g.r.IntN(3)
-			if g.r.IntN(8) == 0 {
-				nv = 5 + g.r.IntN(5) // long alternatives lists
-			}
-			for k := 0; k < nv; k++ {
-				t.Vals = append(t.Vals, g.val(c.Pool, t.Input))
-			}
-			l.Terms = append(l.Terms, t)
-		}
-		switch g.r.IntN(10) {
-		case 0, 1, 2, 3:
-			l.Anno = []c14Anno{{Key: "add_latency", Val: g.pick(c14GoodDur), Bare: g.r.IntN(2) == 0}}
-		case 4:
-			l.Anno = []c14Anno{{Key: "add_latency", Val: g.pick(c14GoodDur), Bare: true}, {Key: "add_latency", Val: g.pick(c14GoodDur)}}
-		}
-		c.Lines = append(c.Lines, l)
-	}
-	switch g.r.IntN(7) {
-	case 0:
-		c.Policy = "random"
-	case 1:
-		c.Policy = "min"
-	case 2:
-		c.Policy = "min_avg10"
-	case 3:
-		c.Policy = "min_moving_avg"
-	case 4:
-		c.Policy = g.pick([]string{"'min'", `"random"`, "fixed('2')", "fixed( 1 )", "fixed(+1)", "fixed(-1)", "fixed(007)"})
-	default:
-		c.Policy = fmt.Sprintf("fixed(%d)", g.r.IntN(len(c.Pool)+3)-1)
-	}
-	// inject invalid elements
-	if g.r.IntN(100) < 30 {
-		k := 1
-		if g.r.IntN(10) == 0 {
-			k = 2
-		}
-		for ; k > 0; k-- {
-			g.inject(c)
-		}
-	}
-	return c
-}
-
-func (g *c14Gen) inject(c *c14Case) {
-	kind := g.r.IntN(7)
-	if len(c.Lines) == 0 && kind < 6 {
-		if g.r.IntN(2) == 0 {
-			kind = 6
-		} else {
-			c.Lines = append(c.Lines, c14Line{Terms: []c14Term{{Input: "name", Vals: []c14Val{g.val(c.Pool, "name")}}}})
-		}
-	}
-	if kind == 6 {
-		c.Policy = g.pick(c14BadPolicy)
-		return
-	}
-	l := &c.Lines[g.r.IntN(len(c.Lines))]
-	t := &l.Terms[g.r.IntN(len(l.Terms))]
-	insertVal := func(v c14Val) {
-		// bias to late positions so that both eager and lazily skipped placements occur
-		pos := g.r.IntN(len(t.Vals) + 1)
-		if g.r.IntN(2) == 0 {
-			pos = len(t.Vals)
-		}
-		t.Vals = append(t.Vals[:pos], append([]c14Val{v}, t.Vals[pos:]...)...)
-	}
-	switch kind {
-	case 0:
-		t.Input = g.pick(c14BadInputs)
-	case 1:
-		if t.Input == "subtag" {
-			insertVal(c14Val{Key: g.pick(c14BadTagKeys), Val: g.fieldSample(c.Pool, "subtag")})
-		} else {
-			insertVal(c14Val{Key: g.pick(c14BadNameKeys), Val: g.fieldSample(c.Pool, "name")})
-		}
-		for i := range t.Vals {
-			if !c14Representable(t.Vals[i].Val) {
-				t.Vals[i].Val = "x"
-			}
-		}
-	case 2:
-		insertVal(c14Val{Key: "regex", Val: g.pick(c14BadRegex), Sem: "bad"})
-	case 3:
-		// subtag(keyword: ...) — the documented asymmetry
-		nt := c14Term{Input: "subtag", Not: g.r.IntN(3) == 0, Vals: []c14Val{{Key: "keyword", Val: g.pick([]string{"my", "sub", "x"}), Bare: true}}}
-		pos := g.r.IntN(len(l.Terms) + 1)
-		l.Terms = append(l.Terms[:pos], append([]c14Term{nt}, l.Terms[pos:]...)...)
-	case 4:
-		k := g.pick(c14BadAnnoKeys)
-		a := c14Anno{Key: k, Val: g.pick(c14GoodDur), Bare: true}
-		if g.r.IntN(2) == 0 && l.Anno != nil {
-			l.Anno = append(l.Anno, a)
-		} else {
-			l.Anno = []c14Anno{a}
-		}
-	case 5:
-		a := c14Anno{Key: "add_latency", Val: g.pick(c14BadDur)}
-		if g.r.IntN(2) == 0 && l.Anno != nil {
-			l.Anno = append(l.Anno, a)
-		} else {
-			l.Anno = []c14Anno{a}
-		}
-	}
-}
+var (
+	c14Reference    = vk.C14Reference
+	c14PolicyExpect = vk.C14PolicyExpect
+	c14Match        = vk.C14Match
+	c14Field        = vk.C14Field
+)
 
 // ---- driving the real code --------------------------------------------------
 
@@ -714,7 +87,7 @@ func c14Run(c *c14Case) (got c14Got) {
 			got = c14Got{Stage: "panic", Err: fmt.Sprint(r)}
 		}
 	}()
-	secs, err := config_parser.Parse(c.groupText())
+	secs, err := config_parser.Parse(c.GroupText())
 	if err != nil {
 		return c14Got{Stage: "parse", Err: err.Error()}
 	}
@@ -804,54 +177,13 @@ func c14Judge(c *c14Case, e *c14Expect, g *c14Got) (sig, what string) {
 	if g.Extra != "" {
 		return "malformed-result", g.Extra
 	}
-	if len(g.PoolOrder) == len(c.Pool) && len(e.Members) > 1 {
-		// "in pool order" refers to the pool as constructed
-		rank := make(map[int]int, len(g.PoolOrder))
-		for pos, i := range g.PoolOrder {
-			rank[i] = pos
-		}
-		perm := make([]int, len(e.Members))
-		for k := range perm {
-			perm[k] = k
-		}
-		sort.SliceStable(perm, func(a, b int) bool { return rank[e.Members[perm[a]]] < rank[e.Members[perm[b]]] })
-		e2 := *e
-		e2.Members, e2.Offsets, e2.OffsetJudged, e2.WinLine = nil, nil, nil, nil
-		for _, k := range perm {
-			e2.Members = append(e2.Members, e.Members[k])
-			e2.Offsets = append(e2.Offsets, e.Offsets[k])
-			e2.OffsetJudged = append(e2.OffsetJudged, e.OffsetJudged[k])
-			e2.WinLine = append(e2.WinLine, e.WinLine[k])
-		}
-		e = &e2
-	}
 	name, idx, _ := c14PolicyExpect(c.Policy)
 	if string(g.Policy.Policy) != name || (name == "fixed" && g.Policy.FixedIndex != idx) {
 		return "policy-mismatch", fmt.Sprintf("policy %q became %+v", c.Policy, g.Policy)
 	}
-	if len(c.Lines) == 0 {
-		if !c14EqualInts(g.Members, e.Members) {
-			return "nofilter-not-whole-pool", fmt.Sprintf("filter-less group has members %v, pool has %d nodes", g.Members, len(c.Pool))
-		}
-	}
-	if !c14EqualInts(g.Members, e.Members) {
-		kind := "members"
-		if c14SameSet(g.Members, e.Members) {
-			kind = "order-or-multiplicity"
-		} else if len(g.Members) > len(e.Members) {
-			kind = "extra-member"
-		} else if len(g.Members) < len(e.Members) {
-			kind = "missing-member"
-		}
-		return "membership/" + kind, fmt.Sprintf("members (pool indices) got %v, reference %v", g.Members, e.Members)
-	}
-	for k := range e.Members {
-		if e.OffsetJudged[k] && g.Offsets[k] != e.Offsets[k] {
-			return "annotation-mismatch", fmt.Sprintf("member pool[%d] (first satisfied line %d) carries add_latency %v, reference %v",
-				e.Members[k], e.WinLine[k], g.Offsets[k], e.Offsets[k])
-		}
-	}
-	return "", ""
+	// members, order ("in pool order" refers to the pool as constructed), multiplicity, annotation:
+	// shared with the `groups` part
+	return vk.C14JudgeMembership(c, e, g.PoolOrder, g.Members, g.Offsets)
 }
 
 func vkFirstLine(s string) string {
@@ -859,37 +191,6 @@ func vkFirstLine(s string) string {
 		return s[:i]
 	}
 	return s
-}
-
-func c14EqualInts(a, b []int) bool {
-	if len(a) != len(b) {
-		return false
-	}
-	for i := range a {
-		if a[i] != b[i] {
-			return false
-		}
-	}
-	return true
-}
-
-func c14SameSet(a, b []int) bool {
-	x, y := map[int]bool{}, map[int]bool{}
-	for _, v := range a {
-		x[v] = true
-	}
-	for _, v := range b {
-		y[v] = true
-	}
-	if len(x) != len(y) {
-		return false
-	}
-	for v := range x {
-		if !y[v] {
-			return false
-		}
-	}
-	return true
 }
 
 func c14Check(c *c14Case) (sig, what string, e *c14Expect, g c14Got) {
@@ -919,11 +220,11 @@ func c14Minimize(c *c14Case, sig string, keepNode bool) *c14Case {
 		s, _, _, _ := c14Check(q)
 		return s == sig
 	}
-	cur := c.clone()
+	cur := c.Clone()
 	for changed := true; changed; {
 		changed = false
 		for i := 0; i < len(cur.Pool); i++ {
-			q := cur.clone()
+			q := cur.Clone()
 			q.Pool = append(q.Pool[:i], q.Pool[i+1:]...)
 			if bad(q) {
 				cur, changed = q, true
@@ -931,7 +232,7 @@ func c14Minimize(c *c14Case, sig string, keepNode bool) *c14Case {
 			}
 		}
 		for i := 0; i < len(cur.Lines); i++ {
-			q := cur.clone()
+			q := cur.Clone()
 			q.Lines = append(q.Lines[:i], q.Lines[i+1:]...)
 			if len(q.Lines) > 0 && bad(q) {
 				cur, changed = q, true
@@ -940,7 +241,7 @@ func c14Minimize(c *c14Case, sig string, keepNode bool) *c14Case {
 		}
 		for i := range cur.Lines {
 			for j := 0; j < len(cur.Lines[i].Terms); j++ {
-				q := cur.clone()
+				q := cur.Clone()
 				q.Lines[i].Terms = append(q.Lines[i].Terms[:j], q.Lines[i].Terms[j+1:]...)
 				if bad(q) {
 					cur, changed = q, true
@@ -949,7 +250,7 @@ func c14Minimize(c *c14Case, sig string, keepNode bool) *c14Case {
 			}
 			for j := range cur.Lines[i].Terms {
 				for k := 0; k < len(cur.Lines[i].Terms[j].Vals); k++ {
-					q := cur.clone()
+					q := cur.Clone()
 					vs := q.Lines[i].Terms[j].Vals
 					q.Lines[i].Terms[j].Vals = append(vs[:k], vs[k+1:]...)
 					if bad(q) {
@@ -959,7 +260,7 @@ func c14Minimize(c *c14Case, sig string, keepNode bool) *c14Case {
 				}
 			}
 			if cur.Lines[i].Anno != nil {
-				q := cur.clone()
+				q := cur.Clone()
 				q.Lines[i].Anno = nil
 				if bad(q) {
 					cur, changed = q, true
@@ -1016,7 +317,7 @@ func c14Shape(c *c14Case, e *c14Expect) string {
 }
 
 func TestVerifC14(t *testing.T) {
-	m := vk.NewMonitor("C14", "", "exploration",
+	m := vk.NewMonitor("C14", "main", "exploration",
 		"generated (node pool of 0-12 dialers over an adversarial name/subtag alphabet) x (group definition TEXT: 0-4 filter lines, 1-3 && terms, "+
 			"1-3 alternatives exact/keyword/regex, negation, annotations absent/present/duplicated, 5 policies, injected invalid elements at random positions); "+
 			"distinct = (per-line term/key shape, set of lines that won for >=1 node, invalidity class); "+
@@ -1027,7 +328,7 @@ func TestVerifC14(t *testing.T) {
 		"duration syntax of add_latency is Go's time.ParseDuration; duplicated add_latency keys are judged only when the first value is non-zero (statement silent otherwise)",
 		"dae documents five policies (random, fixed, min, min_avg10, min_moving_avg); the property text says six")
 	r := vk.NewRand(0xC14)
-	g := &c14Gen{r: r}
+	g := vk.NewC14Gen(r)
 	n := vk.Scale(6000, 300000)
 	reported := map[string]int{}
 	pending := map[string]*c14Case{}
@@ -1038,14 +339,14 @@ func TestVerifC14(t *testing.T) {
 			what = what2
 		}
 		m.Violation(sig, what, map[string]any{
-			"pool": min.Pool, "group_text": min.groupText(), "case": min,
+			"pool": min.Pool, "group_text": min.GroupText(), "case": min,
 			"reference": map[string]any{"invalid": e2.InvalidAll, "members": e2.Members, "offsets_ns": e2.Offsets, "would_be_evaluated": e2.Reached, "skip_causes": e2.Causes},
 			"got":       map[string]any{"stage": got2.Stage, "error": got2.Err, "members": got2.Members, "offsets_ns": got2.Offsets, "policy": fmt.Sprintf("%+v", got2.Policy), "extra": got2.Extra},
-			"original":  map[string]any{"pool": c.Pool, "group_text": c.groupText()},
+			"original":  map[string]any{"pool": c.Pool, "group_text": c.GroupText()},
 		})
 	}
 	for i := 0; i < n && m.Violations() < 8; i++ {
-		c := g.gen()
+		c := g.Gen()
 		sig, what, e, got := c14Check(c)
 		m.Eval(1)
 		// ---- what was observed
@@ -1137,7 +438,7 @@ func TestVerifC14(t *testing.T) {
 		}
 		if sig == "" {
 			if nontrivial && e.Invalid == "" && len(c.Lines) >= 2 && m.WantSample() {
-				m.Sample(map[string]any{"pool": c.Pool, "group_text": c.groupText(), "members": got.Members, "offsets_ns": got.Offsets})
+				m.Sample(map[string]any{"pool": c.Pool, "group_text": c.GroupText(), "members": got.Members, "offsets_ns": got.Offsets})
 			}
 			continue
 		}
